@@ -112,7 +112,7 @@ class EngineBase:
         """'runner.TestResult.addError' -> (FunctionDef, module name, source segment)."""
         if qual in self._defs:
             return self._defs[qual]
-        parts = qual.split('.')
+        parts = qual.split('@')[0].split('.')      # 'module.function@view': a second contract on the same function
         tree, src, _ = self.module(parts[0])
         node = tree
         for p in parts[1:]:
@@ -130,6 +130,15 @@ class EngineBase:
 
     def add_contract(self, key, d):
         self.contracts[key] = Contract(key, d)
+
+    def check_views(self):
+        """`assumed_ensures` of a contract are used by its callers only; each must be an `ensures` clause of a view
+        (a second contract 'qual@view' on the same function, verified on its own, with its own smaller invariants)."""
+        for key, c in self.contracts.items():
+            for text in c.extra.get('assumed_ensures', []):
+                views = [v for k2, v in self.contracts.items() if k2.startswith(key + '@')]
+                if not any(text in v.ensures and not v.trusted for v in views):
+                    raise ContractError("%s: assumed clause %r is not proved by any view" % (key, text))
 
     def strlit(self, s):
         if s not in self.strlits:
